@@ -41,6 +41,14 @@ def sig_of(obj):
     return int.from_bytes(hashlib.blake2b(data, digest_size=7).digest(), "big")
 
 
+class Stall(Exception):
+    """Raised inside the running case by the per-case CPU-time guard (ITIMER_VIRTUAL): the library did not
+    come back from one operation within STALL_CPU_S seconds of CPU time (e.g. an endless loop)."""
+
+
+STALL_CPU_S = 30.0
+
+
 class Ctx(object):
     def __init__(self, prop, tier, seed, shard, nshards, repo, scratch, params=None, hashseed=None):
         self.prop = prop
@@ -71,6 +79,41 @@ class Ctx(object):
         self.audit = None
         self.vtrace = None
         self.harvest = None
+        self.stalled = 0
+        self._stall_pending = False
+
+    # ---- per-case stall guard ------------------------------------------------
+    def arm_stall_guard(self):
+        """(Re-)arms a CPU-time alarm; called at shard start and after every case.  CPU time, not wall time,
+        so a loaded machine cannot trip it."""
+        import signal
+        if not self.params.get("stall_guard", True):
+            return
+        try:
+            signal.signal(signal.SIGVTALRM, self._on_stall)
+            limit = float(self.params.get("stall_cpu_s", STALL_CPU_S))
+            if self.stalled:
+                limit = 2.0      # after the first stall the workload is being wound down: fail fast
+            signal.setitimer(signal.ITIMER_VIRTUAL, limit)
+        except (ValueError, OSError, AttributeError):
+            pass
+
+    def _on_stall(self, sig, frm):
+        self.stalled += 1
+        self._stall_pending = True
+        where = "%s:%d in %s" % (frm.f_code.co_filename, frm.f_lineno, frm.f_code.co_name) if frm is not None else "?"
+        self.notes["stall_interrupted_at"] = where
+        self.arm_stall_guard()
+        raise Stall("operation interrupted after %.0f CPU seconds at %s" % (float(self.params.get("stall_cpu_s", STALL_CPU_S)), where))
+
+    def _after_case(self, sig_obj):
+        if self._stall_pending:
+            self._stall_pending = False
+            self.violation("stall-guard", "every operation of the workload returns (normally or by raising) within %.0f CPU seconds"
+                           % float(self.params.get("stall_cpu_s", STALL_CPU_S)),
+                           {"case_that_was_running": jsonable(sig_obj)}, observed="interrupted at %s" % self.notes.get("stall_interrupted_at"),
+                           expected="the operation returns")
+        self.arm_stall_guard()
 
     # ---- randomness -------------------------------------------------------
     def rng(self, index, stream=""):
@@ -81,7 +124,8 @@ class Ctx(object):
         return self.budget_s - (time.time() - self.t0)
 
     def out_of_time(self):
-        return self.time_left() <= 0
+        # a stalled operation was interrupted: wind the workload down (the witness is recorded)
+        return self.stalled > 0 or self.time_left() <= 0
 
     # ---- counters ---------------------------------------------------------
     def count(self, cls, n=1):
@@ -96,6 +140,7 @@ class Ctx(object):
             m["fired"] += 1
 
     def case_done(self, sig_obj=None, nontrivial=True, sig=None):
+        self._after_case(sig_obj)
         self.evaluations += 1
         if not nontrivial:
             self.trivial += 1
